@@ -1,12 +1,312 @@
-(* C02 — property theorems (statements closed by `exact <lemma>`). *)
+(* C02 — property theorems.  Only statements closed by `exact <lemma>` (or a
+   short unfolding wrapper) and the Print Assumptions the check collects.
+
+   Vocabulary (coq/C02/Model.v): a file system maps the nine paths of one
+   recording (x.bin, x.cbin, x.cbin_tmp, x.ch, x.meta, x.bin_temp and the three
+   scratch paths) to Absent | Partial j | Complete tag; `exec steps fs fault`
+   runs a procedure's step list, the fault-th instrumented call raising instead
+   of executing; `final_fs`, `final_oc`, `final_tr` are its final state, its
+   outcome (Done | Raised | Failed) and the (state-before, step) pairs that
+   took effect.  All theorems quantify over every chunk count m, every batch
+   size B (= n_threads), every fault position (or none) and every initial
+   content of the files not mentioned in the hypotheses (stale files included). *)
 From Coq Require Import ZArith List Bool Lia.
 From IBL.lib Require Import PyInt.
 From IBL.C02 Require Import Model Proofs.
 Import ListNotations.
 Open Scope Z_scope.
 
-Theorem C02_resolve_existing : forall eb ec em e,
-  eb || ec = true -> entry_exists eb ec em e = true ->
-  exists f, resolve eb ec e = Some f /\ dfile_exists eb ec f = true.
-Proof. exact resolve_existing. Qed.
-Print Assumptions C02_resolve_existing.
+(* ---------------------------------------------------------------------- *)
+(* Resolution: whichever of x.bin / x.cbin / x.meta is handed to the reader,
+   in a folder whose data files all belong to recording r and with at least
+   one of them present, the constructor settles on an existing data file of r
+   and opens it.                                                            *)
+Theorem C02_resolve_same_recording : forall r fs e,
+  consistent r fs ->
+  present (fs PBin) || present (fs PCbin) = true ->
+  present (fs (entry_path e)) = true ->
+  present (fs PMeta) = true ->
+  exists f, resolve (present (fs PBin)) (present (fs PCbin)) e = Some f /\ holds r fs f /\
+    open_outcome (present (fs PBin)) (present (fs PCbin)) (present (fs PMeta)) (present (fs PCh)) e
+      = match f with DBin => OpenedBin | DCbin => OpenedCbin end.
+Proof. exact resolve_same_recording. Qed.
+Print Assumptions C02_resolve_same_recording.
+
+Example resolve_meta_only_cbin :
+  resolve false true EMeta = Some DCbin /\ open_outcome false true true true EMeta = OpenedCbin.
+Proof. vm_compute. auto. Qed.
+
+(* ---------------------------------------------------------------------- *)
+(* compress_file (tree at 746882f: stream -> x.cbin_tmp, header -> x.ch_tmp,
+   then rename header, rename stream, unlink source).  Source x.bin complete;
+   anything else arbitrary (stale pair, stale temporaries).
+   1. x.cbin is either what it was or the complete new stream;
+   2. x.bin is intact, unless keep_original=False and then only with the
+      complete x.cbin and x.ch in place;
+   3. files other than x.bin/x.cbin/x.ch and the two temporaries are untouched;
+   4. header and stream are published in this order: nothing yet (x.ch and
+      x.cbin as they were) / header only — and then the complete new stream is
+      still in x.cbin_tmp, x.ch_tmp is gone and x.bin is intact / both.  So a
+      fault during compression (chunks, header write, check) leaves x.ch and
+      x.cbin exactly as they were; only a fault of the second rename itself
+      leaves the new complete x.ch next to the old (or absent) x.cbin;
+   5. a run that returns leaves cbin+ch complete, no temporaries, source as
+      requested; without a fault the run returns; no step fails by itself.
+   Temporaries x.cbin_tmp / x.ch_tmp may be left behind by a faulted run.    *)
+Theorem C02_compress_atomic : forall r c m B keep chk fs0 fault,
+  fs0 PBin = Complete (Orig r) ->
+  let res := exec (compress_steps r c m B keep chk) fs0 fault in
+  let fs' := final_fs res in
+  (fs' PCbin = fs0 PCbin \/ fs' PCbin = Complete (Comp r c)) /\
+  (fs' PBin = Complete (Orig r) \/
+   (keep = false /\ fs' PBin = Absent /\
+    fs' PCbin = Complete (Comp r c) /\ fs' PCh = Complete (Hdr r c))) /\
+  (forall q, In q [PMeta; PBinTmp; PSBin; PSBinTmp; PSMeta] -> fs' q = fs0 q) /\
+  ((fs' PCh = fs0 PCh /\ fs' PCbin = fs0 PCbin) \/
+   (fs' PCh = Complete (Hdr r c) /\ fs' PCbin = fs0 PCbin /\
+    fs' PCbinTmp = Complete (Comp r c) /\ fs' PChTmp = Absent /\ fs' PBin = Complete (Orig r)) \/
+   (fs' PCh = Complete (Hdr r c) /\ fs' PCbin = Complete (Comp r c))) /\
+  (final_oc res = Done ->
+     fs' PCbin = Complete (Comp r c) /\ fs' PCh = Complete (Hdr r c) /\
+     fs' PCbinTmp = Absent /\ fs' PChTmp = Absent /\
+     fs' PBin = (if keep then Complete (Orig r) else Absent)) /\
+  (fault = None -> final_oc res = Done) /\
+  final_oc res <> Failed.
+Proof. exact compress_atomic. Qed.
+Print Assumptions C02_compress_atomic.
+
+(* No partial file ever carries a final name: if x.cbin and x.ch were not
+   partial before the call they are not partial after it, whatever the fault. *)
+Theorem C02_final_names_never_partial : forall r c m B keep chk fs0 fault,
+  fs0 PBin = Complete (Orig r) ->
+  (forall j, fs0 PCbin <> Partial j) -> (forall j, fs0 PCh <> Partial j) ->
+  let fs' := final_fs (exec (compress_steps r c m B keep chk) fs0 fault) in
+  forall j, fs' PCbin <> Partial j /\ fs' PCh <> Partial j.
+Proof. exact final_names_never_partial. Qed.
+Print Assumptions C02_final_names_never_partial.
+
+(* Order of publication: x.ch_tmp -> x.ch only with complete stream and header
+   (source still there); x.cbin_tmp -> x.cbin next, the complete header already
+   under its final name; x.bin unlinked only after both, no temporary left.  *)
+Theorem C02_compress_inplace_order : forall r c m B keep chk fs0 fault x s,
+  fs0 PBin = Complete (Orig r) ->
+  In (x, s) (final_tr (exec (compress_steps r c m B keep chk) fs0 fault)) ->
+  (s = SRename PChTmp PCh ->
+     x PChTmp = Complete (Hdr r c) /\ x PCbinTmp = Complete (Comp r c) /\
+     x PBin = Complete (Orig r)) /\
+  (s = SRename PCbinTmp PCbin ->
+     x PCbinTmp = Complete (Comp r c) /\ x PCh = Complete (Hdr r c) /\
+     x PChTmp = Absent /\ x PBin = Complete (Orig r)) /\
+  (s = SUnlink PBin ->
+     x PCbin = Complete (Comp r c) /\ x PCh = Complete (Hdr r c) /\
+     x PCbinTmp = Absent /\ x PChTmp = Absent).
+Proof.
+  intros r c m B keep chk fs0 fault x s Hsrc Hin.
+  pose proof (compress_inplace_order r c m B keep chk fs0 fault Hsrc) as H.
+  rewrite Forall_forall in H. exact (H _ Hin).
+Qed.
+Print Assumptions C02_compress_inplace_order.
+
+Example compress_hyp_satisfiable :
+  let res := exec (compress_steps 1 1 3 2 false true) fs_bin_stale None in
+  final_oc res = Done /\ final_fs res PBin = Absent /\ final_fs res PCbin = Complete (Comp 1 1) /\
+  length (final_tr res) = 14%nat.
+Proof. vm_compute. auto. Qed.
+
+(* ---------------------------------------------------------------------- *)
+(* decompress_file (out = x.bin, or a temporary name).  The property asks only
+   for the ordering here: the compressed pair is intact, unless
+   keep_original=False and then x.cbin / x.ch are unlinked only in states where
+   the output is the complete binary; other files untouched; a run that
+   returns leaves the complete binary.                                      *)
+Theorem C02_decompress_file_order : forall r c m B out keep chk ow fs0 fault,
+  out_ok out = true ->
+  fs0 PCbin = Complete (Comp r c) -> fs0 PCh = Complete (Hdr r c) ->
+  let res := exec (decompress_steps r c m B out keep chk ow) fs0 fault in
+  let fs' := final_fs res in
+  ((fs' PCbin = Complete (Comp r c) /\ fs' PCh = Complete (Hdr r c)) \/
+   (keep = false /\ fs' out = Complete (Orig r) /\ fs' PCbin = Absent /\
+    (fs' PCh = Complete (Hdr r c) \/ fs' PCh = Absent))) /\
+  (forall q, path_eqb q out = false -> path_eqb q PCbin = false -> path_eqb q PCh = false ->
+             fs' q = fs0 q) /\
+  (final_oc res = Done ->
+     fs' out = Complete (Orig r) /\
+     fs' PCbin = (if keep then Complete (Comp r c) else Absent) /\
+     fs' PCh = (if keep then Complete (Hdr r c) else Absent)) /\
+  (fault = None -> (ow = true \/ present (fs0 out) = false) -> final_oc res = Done) /\
+  (forall x s, In (x, s) (final_tr res) -> (s = SUnlink PCbin \/ s = SUnlink PCh) ->
+               x out = Complete (Orig r)).
+Proof.
+  intros r c m B out keep chk ow fs0 fault Hout Hc Hh res fs'.
+  destruct (decompress_atomic r c m B out keep chk ow fs0 fault Hout Hc Hh) as [[D1 D2] [D3 [D4 D5]]].
+  split; [exact D1|split; [exact D2|split; [exact D3|split; [exact D4|]]]].
+  intros x s Hin. rewrite Forall_forall in D5. exact (D5 _ Hin).
+Qed.
+Print Assumptions C02_decompress_file_order.
+
+(* ---------------------------------------------------------------------- *)
+(* decompress_to_scratch (scratch_dir given or None).  The compressed pair is
+   never touched; the final name of the scratch binary holds what it held or
+   the complete binary — never a partial file; nothing else but the temporary
+   and the copied .meta changes; a run that returns leaves the complete binary
+   (or the file that was already there) and no temporary.                   *)
+Theorem C02_scratch_atomic : forall r c m B sd fs0 fault,
+  fs0 PCbin = Complete (Comp r c) -> fs0 PCh = Complete (Hdr r c) ->
+  (sd = true -> present (fs0 PMeta) = true) ->
+  let res := exec (scratch_steps fs0 r c m B sd) fs0 fault in
+  let fs' := final_fs res in
+  let tgt := scratch_target sd in
+  let tmp := scratch_tmp sd in
+  fs' PCbin = Complete (Comp r c) /\ fs' PCh = Complete (Hdr r c) /\
+  (fs' tgt = fs0 tgt \/ fs' tgt = Complete (Orig r)) /\
+  (forall q, path_eqb q tgt = false -> path_eqb q tmp = false -> path_eqb q PSMeta = false ->
+             fs' q = fs0 q) /\
+  (final_oc res = Done ->
+     fs' tgt = (if present (fs0 tgt) then fs0 tgt else Complete (Orig r)) /\
+     (present (fs0 tgt) = false -> fs' tmp = Absent)) /\
+  (fault = None -> final_oc res = Done) /\
+  final_oc res <> Failed.
+Proof.
+  intros r c m B sd fs0 fault Hc Hh Hm res fs' tgt tmp.
+  destruct (scratch_atomic r c m B sd fs0 fault Hc Hh Hm) as [[S1 [S2 [S3 S4]]] [S5 [S6 S7]]].
+  repeat (split; [assumption|]). assumption.
+Qed.
+Print Assumptions C02_scratch_atomic.
+
+Example scratch_hyp_satisfiable :
+  let res := exec (scratch_steps fs_cbin_only 1 1 2 16 true) fs_cbin_only (Some 8%nat) in
+  final_oc res = Raised /\ final_fs res PSBin = Absent /\ final_fs res PSBinTmp = Complete (Orig 1).
+Proof. vm_compute. auto. Qed.
+
+(* ---------------------------------------------------------------------- *)
+(* Any sequence of calls of the three procedures (any options), each hit by an
+   arbitrary fault or none, each enabled only on a reader that could have been
+   opened: the recording is never lost (x.bin complete, or a readable
+   x.cbin/x.ch pair), x.cbin is never a partial file, scratch/x.bin is never a
+   partial file.                                                            *)
+Theorem C02_history_safe : forall r h fs,
+  ((fs PBin = Complete (Orig r) \/
+    exists c, fs PCbin = Complete (Comp r c) /\ fs PCh = Complete (Hdr r c)) /\
+   (fs PCbin = Absent \/ exists c, fs PCbin = Complete (Comp r c)) /\
+   (fs PSBin = Absent \/ fs PSBin = Complete (Orig r)) /\
+   present (fs PMeta) = true) ->
+  let fs' := run_history r fs h in
+  (fs' PBin = Complete (Orig r) \/
+   exists c, fs' PCbin = Complete (Comp r c) /\ fs' PCh = Complete (Hdr r c)) /\
+  (fs' PCbin = Absent \/ exists c, fs' PCbin = Complete (Comp r c)) /\
+  (fs' PSBin = Absent \/ fs' PSBin = Complete (Orig r)) /\
+  present (fs' PMeta) = true.
+Proof. intros r h fs H. exact (history_safe r h fs H). Qed.
+Print Assumptions C02_history_safe.
+
+Example history_example :
+  let h := [(OpCompress 1 3 2 false true, Some 4%nat); (OpCompress 2 2 1 false true, None);
+            (OpScratch 2 2 16 true, Some 7%nat); (OpDecompress 2 2 1 false true true, Some 8%nat)] in
+  let fs' := run_history 1 fs_bin_only h in
+  fs' PBin = Complete (Orig 1) /\ fs' PCbin = Complete (Comp 1 2) /\ fs' PCh = Complete (Hdr 1 2) /\
+  fs' PCbinTmp = Absent /\ fs' PSBinTmp = Partial 1.
+Proof. vm_compute. auto. Qed.
+
+(* ---------------------------------------------------------------------- *)
+(* Codec.  For every compressor pair with unzip (zip b) = b, every chunk size
+   >= 1 and every int16 matrix with nc columns: decoding the encoded file
+   gives the matrix back (wrapping differences, Fortran-order bytes,
+   wrapping running sum).                                                   *)
+Theorem C02_codec_roundtrip : forall (zip unzip : list Z -> list Z) nc size rows,
+  (forall b, unzip (zip b) = b) -> 1 <= size ->
+  Forall (fun row => length row = nc /\ Forall (fun v => -32768 <= v < 32768) row) rows ->
+  decode_file unzip nc (encode_file zip nc size rows) = rows.
+Proof. exact file_roundtrip. Qed.
+Print Assumptions C02_codec_roundtrip.
+
+(* one chunk, with the byte stream made explicit: the bytes handed to zlib are
+   bytes, and decoding them gives the chunk back *)
+Theorem C02_chunk_roundtrip : forall nc rows,
+  Forall (fun row => length row = nc /\ Forall (fun v => -32768 <= v < 32768) row) rows ->
+  Forall (fun b => 0 <= b < 256) (payload nc rows) /\
+  decode_payload (length rows) nc (payload nc rows) = rows.
+Proof.
+  intros nc rows H. split; [apply to_bytes_range|exact (payload_roundtrip nc rows H)].
+Qed.
+Print Assumptions C02_chunk_roundtrip.
+
+Example codec_example :
+  let rows := [[32767; -32768]; [-32768; 32767]; [0; -1]] in
+  payload 2 rows = [255; 127; 1; 0; 0; 128; 0; 128; 255; 255; 0; 128] /\
+  decode_file (fun b => b) 2 (encode_file (fun b => b) 2 2 rows) = rows.
+Proof. vm_compute. auto. Qed.
+
+(* Chunk bounds range(0, n, size) ++ [n] tile [0, n): m = ceil(n/size) >= 1
+   chunks, bound k = k*size for k < m, last bound n, and the last chunk is
+   non-empty and at most `size` long.                                       *)
+Theorem C02_chunks_partition : forall n size, 1 <= n -> 1 <= size ->
+  let b := chunk_bounds n size in
+  let m := n_chunks n size in
+  1 <= m /\ Z.of_nat (length b) = m + 1 /\
+  (forall k, 0 <= k < m -> nth (Z.to_nat k) b 0 = k * size) /\
+  nth (Z.to_nat m) b 0 = n /\
+  (m - 1) * size < n <= m * size.
+Proof. exact chunk_bounds_spec. Qed.
+Print Assumptions C02_chunks_partition.
+
+(* ... and chunk k of the encoder's split is rows[k*size : k*size + size] *)
+Theorem C02_chunk_is_slice : forall size k (rows : list (list Z)),
+  (0 < size)%nat -> (k * size < length rows)%nat ->
+  nth k (file_chunks (Z.of_nat size) rows) [] = firstn size (skipn (k * size) rows).
+Proof.
+  intros size k rows Hs Hk. unfold file_chunks. rewrite Nat2Z.id.
+  apply split_rows_nth; [exact Hs|apply Nat.le_refl|exact Hk].
+Qed.
+Print Assumptions C02_chunk_is_slice.
+
+(* ---------------------------------------------------------------------- *)
+(* The exact truth about what is left of the former findings F-C02-b/c
+   (repaired in 746882f), and about decompress_file.                        *)
+
+(* a fault while the header is written leaves only temporaries: x.ch and
+   x.cbin are as before (here: absent), x.ch_tmp truncated, x.cbin_tmp complete *)
+Theorem C02_header_fault_leaves_temporaries :
+  exists r c m B keep chk fs0 fault,
+    fs0 PBin = Complete (Orig r) /\ fs0 PCh = Absent /\ fs0 PCbin = Absent /\
+    let res := exec (compress_steps r c m B keep chk) fs0 fault in
+    final_oc res = Raised /\ final_fs res PCh = Absent /\ final_fs res PCbin = Absent /\
+    final_fs res PChTmp = Partial 0 /\ final_fs res PCbinTmp = Complete (Comp r c).
+Proof.
+  exists 1, 1, 2, 1, true, true, fs_bin_only, (Some 6%nat).
+  cbn zeta. repeat split; try reflexivity; apply header_fault_witness.
+Qed.
+Print Assumptions C02_header_fault_leaves_temporaries.
+
+(* two renames cannot be one atomic commit: a fault of the second rename
+   itself, with an older pair of another chunking present, leaves the new
+   complete x.ch next to the old complete x.cbin (new complete stream in
+   x.cbin_tmp, x.bin intact).  Both final-named files are complete and the
+   source is untouched, so the property's clause is met; by clause 4 of
+   C02_compress_atomic this is the only state in which the pair disagrees. *)
+Theorem C02_pair_commit_window :
+  exists r c c' m B keep chk fs0 fault,
+    c <> c' /\ fs0 PBin = Complete (Orig r) /\
+    fs0 PCbin = Complete (Comp r c') /\ fs0 PCh = Complete (Hdr r c') /\
+    let res := exec (compress_steps r c m B keep chk) fs0 fault in
+    final_oc res = Raised /\
+    final_fs res PCbin = Complete (Comp r c') /\ final_fs res PCh = Complete (Hdr r c) /\
+    final_fs res PCbinTmp = Complete (Comp r c) /\ final_fs res PBin = Complete (Orig r).
+Proof.
+  exists 1, 1, 2, 2, 1, true, true, fs_bin_stale, (Some 9%nat).
+  cbn zeta. repeat split; try reflexivity; try discriminate; apply between_renames_witness.
+Qed.
+Print Assumptions C02_pair_commit_window.
+
+(* decompress_file itself writes under the final name (the property does not
+   ask otherwise): a fault leaves a truncated x.bin next to the intact pair *)
+Theorem C02_decompress_file_not_atomic :
+  exists r c m B fs0 fault,
+    fs0 PCbin = Complete (Comp r c) /\ fs0 PCh = Complete (Hdr r c) /\ fs0 PBin = Absent /\
+    let res := exec (decompress_steps r c m B PBin true true true) fs0 fault in
+    final_oc res = Raised /\ final_fs res PBin = Partial 1.
+Proof.
+  exists 1, 1, 2, 1, fs_cbin_only, (Some 5%nat).
+  repeat (split; [reflexivity|]).
+  destruct decompress_partial_witness as [H1 [H2 _]]. split; assumption.
+Qed.
+Print Assumptions C02_decompress_file_not_atomic.
